@@ -186,6 +186,11 @@ class Shadow:
         self.sel: tuple | None = None       # (folder, readonly)
         self.subs: set = set()
         self.cid = 0
+        # names that were renamed away: the session's MailboxSet keeps the old
+        # MailboxData (and its MAILBOXID) cached under the name, so a mailbox
+        # re-created under it is confused with the renamed one (a pymap defect
+        # outside C14/C15; the model does not reproduce it)
+        self.retired: set = set()
 
     def new_cid(self) -> int:
         self.cid += 1
@@ -231,6 +236,7 @@ class Shadow:
         elif k == 'rename':
             a, bb = tuple(c[1]), tuple(c[2])
             for f in [f for f in self.folders if f[:len(a)] == a]:
+                self.retired.add(f)
                 self.folders[bb + f[len(a):]] = self.folders.pop(f)
         elif k == 'subscribe':
             self.subs.add(tuple(c[1]))
@@ -299,6 +305,7 @@ def gen_history(rng, n: int, *, weights: dict | None = None) -> list:
                 cand = [p + (x,) for x in NAMES if p + (x,) not in sh.folders]
             else:
                 cand = [(x,) for x in free]
+            cand = [x for x in cand if x not in sh.retired]
             if not cand:
                 continue
             c = ('create', list(rng.choice(cand)))
@@ -307,7 +314,8 @@ def gen_history(rng, n: int, *, weights: dict | None = None) -> list:
             if not srcs:
                 continue
             a = rng.choice(srcs)
-            cand = [(x,) for x in NAMES + ['zed'] if (x,) not in sh.folders]
+            cand = [(x,) for x in NAMES + ['zed'] if (x,) not in sh.folders
+                    and (x,) not in sh.retired]
             if not cand:
                 continue
             c = ('rename', list(a), list(rng.choice(cand)))
@@ -491,6 +499,42 @@ def durability_failures(res: dict, cr: dict) -> list[tuple[str, str, dict]]:
     return fails
 
 
+def reference_failures(res: dict) -> list[tuple[str, str, dict]]:
+    """UID discipline of the running (never killed) server over a history:
+    under one UIDVALIDITY a uid always names the same body, and a message that
+    stays in its mailbox keeps its uid from one command to the next."""
+    ref = res['ref']
+    dumps = [ref['dump0']] + [c['dump'] for c in ref['cmds']]
+    fails = []
+    seen: dict = {}
+    for i, d in enumerate(dumps):
+        for name, f in d['folders'].items():
+            for m in f['msgs']:
+                old = seen.setdefault((f['validity'], m['uid']), m['body'])
+                if old != m['body']:
+                    fails.append(('uid_unique', f'{name} uid {m["uid"]} names another message '
+                                  f'after command {i - 1} {ref["cmds"][i - 1]["cmd"]}',
+                                  {'kind': 'uid_reuse'}))
+        if i == 0:
+            continue
+        prev, cmd = dumps[i - 1], _tup(ref['cmds'][i - 1]['cmd'])
+        for name, f in prev['folders'].items():
+            g = d['folders'].get(name)
+            if g is None or g['validity'] != f['validity']:
+                continue
+            now = {m['uid']: m['body'] for m in g['msgs']}
+            for m in f['msgs']:
+                if m['uid'] in now:
+                    continue
+                elsewhere = [u for u, b_ in now.items() if b_ == m['body']
+                             and u not in {x['uid'] for x in f['msgs']}]
+                if elsewhere and cmd[0] not in ('copy', 'append'):
+                    fails.append(('served_after_restart',
+                                  f'{name} uid {m["uid"]} became uid {elsewhere} by {cmd} '
+                                  f'(UIDVALIDITY unchanged)', {'kind': 'uid_changed'}))
+    return fails
+
+
 def determinism_ok(res: dict, cr: dict) -> bool:
     """The killed run must have executed a prefix of the reference trace."""
     flat = [tuple(e) for c in res['ref']['cmds'] for e in c['events']]
@@ -503,11 +547,16 @@ def determinism_ok(res: dict, cr: dict) -> bool:
     return True
 
 
-def canon_dump(d: dict) -> dict:
-    """What two dumps of the same state must agree on."""
+def canon_dump(d: dict, known=None) -> dict:
+    """What two dumps of the same state must agree on.  A UIDVALIDITY that no
+    dump of the reference run shows was drawn by the restarted server itself
+    (the folder had no uid list yet): it is random, so only its being fresh
+    is compared."""
+    def val(v):
+        return v if known is None or v in known else 'fresh'
     return {'list': sorted(d['list']), 'lsub': sorted(d['lsub']), 'lsub_status': d.get('lsub_status'),
             'errors': sorted((e['folder'], e['status']) for e in d['errors']),
-            'folders': {n: (f['validity'], f['uidnext'],
+            'folders': {n: (val(f['validity']), f['uidnext'],
                             [(m['uid'], m['flags'], m['body']) for m in f['msgs']])
                         for n, f in d['folders'].items()}}
 
@@ -518,8 +567,11 @@ def kill_matches_copy(res: dict, kill: dict) -> bool:
     if not snap:
         return True
     s = snap[0]
-    return (canon_dump(s['dump_raw']) == canon_dump(kill['dump_raw'])
+    ref = res['ref']
+    known = {f['validity'] for d in [ref['dump0']] + [c['dump'] for c in ref['cmds']]
+             for f in d['folders'].values()}
+    return (canon_dump(s['dump_raw'], known) == canon_dump(kill['dump_raw'], known)
             and s['acked'] == kill['acked'] and s['locks'] == kill['locks']
             and ('dump_aged' in s) == ('dump_aged' in kill)
             and ('dump_aged' not in s
-                 or canon_dump(s['dump_aged']) == canon_dump(kill['dump_aged'])))
+                 or canon_dump(s['dump_aged'], known) == canon_dump(kill['dump_aged'], known)))
